@@ -8,8 +8,20 @@ let show_where (addr : int) : string =
   let name = match b with 2 -> "X" | 3 -> "Y" | 4 -> "R" | 5 -> "S" | _ -> "?" in
   if b = 8 && off = 0 then "null" else if b = 9 then "?" else Printf.sprintf "%s+%d" name off
 
-let run (obs : Buffer.t) (id : string) (routine : string) (et : string) (form : string) (al : int * int) (vecs : (char * vec) list) =
+(* the expression forms (harness/common/c13_level1.hpp) are compiled by the extracted Model/BlasC13Expr.v:
+   aexpr / astmt_alpha / astmt_call for axpy, dexpr_call for dot, l1stmt_call for the scal / copy spellings *)
+let axpy_expr (form : string) (al : C13_expr.g) (scales : C13_expr.g list) (x : vec) : (C13_expr.g aexpr * asign) option =
+  let sg = if List.mem form [ "opminus"; "range_minus"; "rescaled_minus"; "plain_minus"; "binminus" ] then SgMinus else SgPlus in
+  match form with
+  | "opplus" | "opminus" -> Some (AxScaled (al, x), sg)
+  | "range_plus" | "range_minus" -> Some (AxRange (al, x), sg)
+  | "rescaled_plus" | "rescaled_minus" -> Some (List.fold_left (fun e f -> AxRescale (e, f)) (AxRange (al, x)) scales, sg)
+  | "plain_plus" | "plain_minus" | "call1" | "binplus" | "binminus" -> Some (AxPlain x, sg)
+  | _ -> None
+
+let run (obs : Buffer.t) (id : string) (routine : string) (et : string) (form : string) (al : int * int) (tree : string list) (vecs : (char * vec) list) =
   let pr fmt = Printf.ksprintf (fun s -> Buffer.add_string obs s) fmt in
+  let scales = C13_expr.parse_scales (C13_expr.tree_get tree "scales" "-") in
   let x = List.assoc 'X' vecs in
   let y = match List.assoc_opt 'Y' vecs with Some y -> y | None -> { vbase = z 9000000; inc = z 1; len = x.len; vconj = false } in
   let ok () = pr "O %s outcome=ok why=-\n" id in
@@ -17,7 +29,9 @@ let run (obs : Buffer.t) (id : string) (routine : string) (et : string) (form : 
     (if routine = "dot" && i x.len = 0 && not (x.vconj || y.vconj) && et <> "d" then 0 else 1);
   (match routine with
    | "dot" ->
-       (match dot_n_model (match et with "s" -> ES | "d" -> ED | "c" -> EC | _ -> EZ) x y with
+       (* every form of dot (value, unary +, (x, y), f * dot, ==, element assignment) makes the one call of dot_ref::decay *)
+       (match dexpr_call (et = "c" || et = "z") (match et with "s" -> ES | "d" -> ED | "c" -> EC | _ -> EZ)
+                (DxDot ({ vo_decos = []; vo_view = x }, { vo_decos = []; vo_view = y })) with
         | None -> pr "O %s outcome=ok why=-\n" id    (* both conjugated: the harness does not call (static_assert) *)
         | Some c ->
             (match c.d_routine with
@@ -30,15 +44,31 @@ let run (obs : Buffer.t) (id : string) (routine : string) (et : string) (form : 
              | DDotc ->
                  pr "K %s 0 %sdotc n=%d %s %d %s %d\n" id et (i c.d_n) (show_where (i c.d_p1)) (i c.d_inc1) (show_where (i c.d_p2)) (i c.d_inc2));
             ok ())
+   | "axpy" when form <> "inplace" ->
+       let fresh = { vbase = z (if i x.len = 0 then 8000000 else 4000000); inc = z 1; len = x.len; vconj = false } in
+       (* x + y, x - y: a copy of x, then copy += / -= y *)
+       let (src, dst) = if form = "binplus" || form = "binminus" then (y, fresh) else (x, y) in
+       (match axpy_expr form (C13_expr.gz al) scales src with
+        | Some (e, sg) ->
+            let c = astmt_call dst e in
+            let (ar, ai) = C13_expr.gi (astmt_alpha C13_expr.gone C13_expr.gmul C13_expr.gneg sg e) in
+            pr "K %s 0 %saxpy n=%d %s %d %s %d a=%d,%d\n" id et (i c.l_n) (show_where (i c.l_px)) (i c.l_incx) (show_where (i c.l_py)) (i c.l_incy) ar ai;
+            ok ()
+        | None -> pr "O %s outcome=model-error why=unsupported-axpy-%s\n" id form)
    | "axpy" | "copy" | "swap" ->
        let y' = if routine = "copy" && form = "construct"
          then { vbase = z (if i x.len = 0 then 8000000 else 4000000); inc = z 1; len = x.len; vconj = false } else y in
-       let c = (match routine with "axpy" -> axpy_call x y' | "copy" -> copy_call x y' | _ -> swap_call x y') in
+       let c = (match routine with
+                | "axpy" -> axpy_call x y'
+                | "copy" -> (match form with "shift" -> l1stmt_call (L1CopyShift (y', x)) | "assign" -> l1stmt_call (L1CopyAssign (y', x)) | _ -> copy_call x y')
+                | _ -> swap_call x y') in
        pr "K %s 0 %s%s n=%d %s %d %s %d%s\n" id et routine (i c.l_n) (show_where (i c.l_px)) (i c.l_incx) (show_where (i c.l_py)) (i c.l_incy)
-         (if routine = "axpy" then (let (r, m) = if form = "opminus" then (- (fst al), - (snd al)) else al in Printf.sprintf " a=%d,%d" r m) else "");
+         (if routine = "axpy" then Printf.sprintf " a=%d,%d" (fst al) (snd al) else "");
        ok ()
    | "scal" ->
-       let c = scal_call x in
+       let c = (match form with
+                | "range" -> l1stmt_call (L1ScalRange (al, x)) | "iter" -> l1stmt_call (L1ScalIt (al, x))
+                | "opmul" -> l1stmt_call (L1ScalOp (x, al)) | _ -> scal_call x) in
        pr "K %s 0 %sscal n=%d %s %d a=%d,%d\n" id et (i c.l_n) (show_where (i c.l_px)) (i c.l_incx) (fst al) (snd al);
        ok ()
    | "nrm2" | "asum" ->
